@@ -158,8 +158,12 @@ class LoopParser(SubParser):
         if not self._init_index_var(context_stack):
             return False
         if self.current_token.is_a(TokenTypes.IN):
+            if self._light_var is not None:
+                return self.token_error('Needed "from" or "cycle", got "{}"')
             code_gen.add_instruction(OpCode.MOVEQ, 0, LoopVar.COUNTER)
             self._loop_type = _LoopType.LIST
+            self._light_var = self._index_var
+            self._index_var = None
             self.next_token()
             return self._pre_loop_list(code_gen, context_stack)
         if self.current_token.is_a(TokenTypes.FROM):
